@@ -26,6 +26,12 @@ pub trait Route: Sized + Default {
 
     /// Matches a route with the given path.
     fn match_path(&self, path: &str) -> Self {
+        // The query and the fragment are not part of the path. They are cut off before splitting
+        // because they can contain `/` themselves (e.g. `/login?next=/home`).
+        let path = path
+            .split(|c| c == '?' || c == '#')
+            .next()
+            .unwrap_or_default();
         let segments = path
             .split('/')
             .filter(|s| !s.is_empty())
